@@ -134,4 +134,25 @@ def WriterS.record (w : WriterS) (vals : List PVal) : WriterS := { w with pendin
 def WriterS.shape (w : WriterS) (c : ShpCall) : WriterS :=
   { w with file := { w.file with rows := w.file.rows ++ [(w.pending, c)] } }
 
+/-! ## the reader side of `from_shapefile` (channel reading of the zip archive and the pyshp `Reader`) -/
+
+/-- a member of the zip archive: whether its name ends in `.shp`, and what `shapefile.Reader(path / name)` hands back
+    (`zip(reader.shapes(), reader.records())` = `reader.rows`; only read for `.shp` members) -/
+structure Member where
+  isShp : Bool
+  reader : ShpFileR
+
+/-- `conv_map[t]` on a dict display of classes (`KeyError`) -/
+def classGet (m : List (String × Kind)) (k : String) : Except String Kind :=
+  match dictGet m k with
+  | some c => .ok c
+  | Option.none => .error "ERR:Key"
+
+/-- `cls.from_pyshp(shape, dt=dt, properties=props)`: the per-class adapter (`fromPyshp`, not translated), then the
+    shape constructor (pinned `BaseShape.__init__`) -/
+def fromPyshpV (k : Kind) (s : ShpShapeR) (dt : V) (props : Dict PVal) : Except String Shape := do
+  let g ← fromPyshp k s
+  let d ← dtOfArg dt
+  pure { geom := g, dt := d, props := props }
+
 end GV.Io.Py
